@@ -388,9 +388,13 @@ def run(ctx, R, tier):
     for hh in hs:
         for n in [x for st in hh.body for x in walk_no_nested(st) if isinstance(x, ast.Raise) and x.exc is None]:
             def last_attempt(atom, pol):
-                if isinstance(atom, ast.Compare) and len(atom.ops) == 1 and pol is True and isinstance(atom.ops[0], (ast.GtE, ast.Eq)):
-                    return isinstance(atom.left, ast.Name) and loops and isinstance(loops[0].target, ast.Name) and atom.left.id == loops[0].target.id \
-                        and unparse(atom.comparators[0]) == "self.__max_retries"
+                # `attempt >= max_retries` is read as `max_retries <= attempt` (canonical ordering), `==` in either order
+                if isinstance(atom, ast.Compare) and len(atom.ops) == 1 and pol is True and isinstance(atom.ops[0], (ast.LtE, ast.Eq)) and loops \
+                        and isinstance(loops[0].target, ast.Name):
+                    sides = [unparse(atom.left), unparse(atom.comparators[0])]
+                    if isinstance(atom.ops[0], ast.LtE):
+                        return sides == ["self.__max_retries", loops[0].target.id]
+                    return sorted(sides) == sorted(["self.__max_retries", loops[0].target.id])
                 return False
             if all(rcfg.guarded(x, lambda e: edge_has_fact(e, last_attempt)) for x in rcfg.nodes_for(n)):
                 ok = True
